@@ -19,6 +19,7 @@ CONSTANTS
  Hist = FALSE
  Bug = "stopOnRefreshTimeout"
  AnyConnId = FALSE
+ AtomicRelease = TRUE
  MoveKinds = {"leader", "add", "addr", "remove", "topic", "coord", "txn", "ctrlr"}
 PROPERTIES C12_RefreshWithinTTL
 CHECK_DEADLOCK FALSE
